@@ -291,8 +291,10 @@ class Interpolator:
         braces_required,
         translate: bool = False,
         decode_htmlentities: bool = False,
+        char_escape=None,
     ) -> None:
         self.expression = expression
+        self.char_escape = char_escape
         self.regex = (
             self.braces_required_regex
             if braces_required
@@ -372,7 +374,8 @@ class Interpolator:
 
                 if string:
                     try:
-                        compiler = engine.parse(string)
+                        compiler = engine.parse(
+                            string, char_escape=self.char_escape)
                         body += compiler.assign_text(target)
                     except ExpressionError:
                         matched = matched[m.start():m.end() - 1]
